@@ -453,10 +453,10 @@ Qed.
 
 
 (* ---------- all other objects, and the objects created meanwhile ---------- *)
-Definition Pn (a : actor) : Prop := launch_pending a \/ a_st a = Terminated.
+Definition Pn (a : actor) : Prop := (launch_pending a /\ a_st a = Alive) \/ a_st a = Terminated.
 Definition RLa (v : nat) (a a' : actor) : Prop :=
   a_tok a' = a_tok a /\
-  (v <> u0 -> a_inst a' = a_inst a /\ a_inflight a' = a_inflight a /\ (exists app, a_sysq a' = a_sysq a ++ app) /\ (a_st a = Terminated -> a_st a' = Terminated)).
+  (v <> u0 -> a_inst a' = a_inst a /\ a_inflight a' = a_inflight a /\ (exists app, a_sysq a' = a_sysq a ++ app) /\ a_st a' = a_st a).
 Definition Gx (s s' : kstate) : Prop :=
   (forall v a, get s v = Some a -> exists a', get s' v = Some a' /\ RLa v a a') /\
   (forall v a', get s' v = Some a' -> v <> u0 -> (v < length (actors s))%nat \/ Pn a').
@@ -466,18 +466,18 @@ Proof. split; [reflexivity|]. intros _. split; [reflexivity|]. split; [reflexivi
 Lemma RL_trans v a b c : RLa v a b -> RLa v b c -> RLa v a c.
 Proof.
   intros [T1 H1] [T2 H2]. split; [congruence|]. intros Hv. destruct (H1 Hv) as (I1 & F1 & (p1 & M1) & S1). destruct (H2 Hv) as (I2 & F2 & (p2 & M2) & S2).
-  split; [congruence|]. split; [congruence|]. split; [exists (p1 ++ p2); rewrite M2, M1, app_assoc; reflexivity|auto].
+  split; [congruence|]. split; [congruence|]. split; [exists (p1 ++ p2); rewrite M2, M1, app_assoc; reflexivity|congruence].
 Qed.
 Lemma Pn_RL v a a' : v <> u0 -> RLa v a a' -> Pn a -> Pn a'.
 Proof.
-  intros Hv [_ H] [Lp|St]; destruct (H Hv) as (_ & F & Q & S).
-  - left. eapply launch_pending_frame; eassumption.
-  - right. auto.
+  intros Hv [_ H] [[Lp Al]|St]; destruct (H Hv) as (_ & F & Q & S).
+  - left. split; [eapply launch_pending_frame; eassumption|congruence].
+  - right. congruence.
 Qed.
 Lemma LIa_RL tr o v a a' : v <> u0 -> RLa v a a' -> LIa tr a -> LIa (tr ++ o) a'.
 Proof.
   intros Hv [T H] L. destruct (H Hv) as (I & F & Q & S). unfold LIa. rewrite T, I.
-  destruct L as [L|[L|[L|L]]]; [left; exact L| |right; right; left; apply launched_app; exact L|right; right; right; auto].
+  destruct L as [L|[L|[L|L]]]; [left; exact L| |right; right; left; apply launched_app; exact L|right; right; right; congruence].
   right. left. eapply launch_pending_frame; eassumption.
 Qed.
 
@@ -559,7 +559,7 @@ Proof.
         assert (G5 : get s5 n = Some (w_sysq ([] ++ [mk_env self t SLaunch]) (new_actor t self r inst))).
         { unfold s5, deliver_sys. rewrite R4. unfold push_sys, upd_actor. rewrite G4. cbn [e_msg mk_env]. eapply get_put_same. exact G4. }
         destruct (F5 _ _ G5) as (a6 & G6 & R6). rewrite Hg in G6. inversion G6; subst a6.
-        eapply Pn_RL; [exact Hv|exact R6|]. left. reflexivity.
+        eapply Pn_RL; [exact Hv|exact R6|]. left. split; reflexivity.
       * (* no object beyond n *)
         exfalso. assert (Len5 : length (actors s5) = S n).
         { assert (L2 : length (actors s2) = S n) by (unfold s2, set_actors; cbn [actors]; rewrite app_length; cbn; unfold n; lia).
@@ -637,7 +637,7 @@ Proof.
   destruct (B v a' Hg Hv) as [Hlt|Hp].
   - destruct (get_of_lt' s v Hlt) as (a & Ha). destruct (A v a Ha) as (a2 & G2 & R2). rewrite Hg in G2. inversion G2; subst a2.
     eapply LIa_RL; [exact Hv|exact R2|eapply H; exact Ha].
-  - destruct Hp as [Hp|Hp]; [right; left; exact Hp|right; right; right; exact Hp].
+  - destruct Hp as [[Hp _]|Hp]; [right; left; exact Hp|right; right; right; exact Hp].
 Qed.
 
 Lemma guard_Gx u0 s s' : Gx u0 s s' -> (exists g, get s guard_uid = Some g /\ a_tok g = rGuard) -> exists g, get s' guard_uid = Some g /\ a_tok g = rGuard.
